@@ -10,6 +10,7 @@ import hashlib
 import json
 import os
 import pickle
+import re
 import subprocess
 import sys
 from concurrent.futures import ThreadPoolExecutor
@@ -170,6 +171,73 @@ def key(n):
             return str(n["cv"])
         return "sizeof"
     return k
+
+
+def single_assignment_locals(f):
+    """name -> init expression for locals that are initialised at their declaration and never assigned,
+    incremented or address-taken afterwards (cached on the function)."""
+    c = getattr(f, "_sal", None)
+    if c is not None:
+        return c
+    inits, dirty = {}, set()
+    for x in f.walk():
+        k = x["k"]
+        if k == "VarDecl":
+            if x.get("c") and x["c"][0] is not None and not x.get("asz"):
+                if x["n"] in inits:
+                    dirty.add(x["n"])      # shadowing / redeclaration
+                inits[x["n"]] = x["c"][0]
+            else:
+                dirty.add(x["n"])
+        elif k == "BinaryOperator" and x["op"] == "=" or k == "CompoundAssignOperator" or \
+                (k == "UnaryOperator" and x["op"] in ("post++", "pre++", "post--", "pre--", "&")):
+            l = strip(x["c"][0])
+            if l is not None and l["k"] == "DeclRefExpr":
+                dirty.add(l["n"])
+    out = {n: e for n, e in inits.items() if n not in dirty}
+    f._sal = out
+    return out
+
+
+def resolve_key(f, n, depth=0):
+    """key() with single-assignment locals replaced by their (side-effect free) initialisers: robust against
+    hoisting an expression into a local."""
+    n0 = strip(n)
+    if n0 is None:
+        return "?"
+    sal = single_assignment_locals(f)
+
+    def sub(x, d):
+        x = strip(x)
+        if x is None:
+            return "?"
+        k = x["k"]
+        if k == "DeclRefExpr" and x.get("dk") == "Var" and x["n"] in sal and d < 5:
+            init = sal[x["n"]]
+            if not any(y["k"] == "CallExpr" and y.get("callee") not in ("strlen",) for y in walk(init)):
+                return sub(init, d + 1)
+            return x["n"]
+        if k == "DeclRefExpr":
+            return x["n"]
+        if k == "MemberExpr":
+            return sub(x["c"][0], d) + ("->" if x.get("arrow") else ".") + x["n"]
+        if k == "ArraySubscriptExpr":
+            return sub(x["c"][0], d) + "[" + sub(x["c"][1], d) + "]"
+        if k == "UnaryOperator":
+            op = x["op"]
+            if op.startswith("post"):
+                return sub(x["c"][0], d) + op[4:]
+            if op.startswith("pre"):
+                return op[3:] + sub(x["c"][0], d)
+            return op + sub(x["c"][0], d)
+        if k in ("BinaryOperator", "CompoundAssignOperator"):
+            return "(" + sub(x["c"][0], d) + x["op"] + sub(x["c"][1], d) + ")"
+        if k == "CallExpr":
+            return (x.get("callee") or sub(x["c"][0], d)) + "(" + ",".join(sub(a, d) for a in x["c"][1:]) + ")"
+        if k == "ConditionalOperator":
+            return "(" + sub(x["c"][0], d) + "?" + sub(x["c"][1], d) + ":" + sub(x["c"][2], d) + ")"
+        return key(x)
+    return sub(n0, depth)
 
 
 def const_value(n):
@@ -780,9 +848,10 @@ def _cmp_decide(n, dkey, v, consts=None):
             ka, kb = key(a), key(b)
             ca, cb = const_value(a), const_value(b)
             lhs = rhs = None
-            if ka == dkey and cb is not None:
+            dk = dkey if isinstance(dkey, (set, frozenset)) else {dkey}
+            if ka in dk and cb is not None:
                 lhs, rhs = v, cb
-            elif kb == dkey and ca is not None:
+            elif kb in dk and ca is not None:
                 lhs, rhs = ca, v
             if lhs is None:
                 return None
@@ -815,6 +884,11 @@ def edpe_blocks(f, dkey, v, extra_decide=None, start=None, blocked=()):
     way (callers check that with assigned_keys())."""
     cfg = f.cfg
     nodes = f.nodes
+    # locals that merely hold the dispatch value (`unsigned short type = t->type;`) dispatch like it
+    aliases = {dkey}
+    for nm, init in single_assignment_locals(f).items():
+        if key(init) == dkey:
+            aliases.add(nm)
     seen = set()
     st = [cfg.entry if start is None else start]
     while st:
@@ -832,7 +906,7 @@ def edpe_blocks(f, dkey, v, extra_decide=None, start=None, blocked=()):
         if b.term is not None and b.term >= 0:
             t = nodes.get(b.term)
             tk = b.tk
-            if tk == "SwitchStmt" and key(t["c"][0]) == dkey:
+            if tk == "SwitchStmt" and key(t["c"][0]) in aliases:
                 target = None
                 default = None
                 fallout = None
@@ -872,7 +946,7 @@ def edpe_blocks(f, dkey, v, extra_decide=None, start=None, blocked=()):
                     # the block's own last element is the (sub)condition actually tested here
                     last = nodes.get(b.el[-1]) if b.el else None
                     tested = last if last is not None else cond
-                    d = _cmp_decide(tested, dkey, v)
+                    d = _cmp_decide(tested, aliases, v)
                     if d is None and extra_decide is not None:
                         d = extra_decide(tested)
                 if d is not None and len(b.succ) == 2:
@@ -882,6 +956,18 @@ def edpe_blocks(f, dkey, v, extra_decide=None, start=None, blocked=()):
             succs = b.rsucc
         st.extend(succs)
     return seen
+
+
+def tok_param(f):
+    """Name of the function's token parameter (the thing dispatchers switch on), by type not by spelling."""
+    for p in f.params:
+        if re.match(r"^(struct )?token \*$", p[1].strip()):
+            return p[0]
+    return "t"
+
+
+def tok_dkey(f):
+    return tok_param(f) + "->type"
 
 
 def block_nodes(f, blocks):
